@@ -76,4 +76,26 @@ PROPS = {
         "assumptions": TRUST,
         "stages": [{"driver": "ser", "stage": "dec", "flavour": "asan"}, {"driver": "ser", "stage": "api", "flavour": "asan"}],
     },
+    "C04": {
+        "level": "exploration",
+        "assumptions": TRUST + ["ownership rules as documented in the headers (cbor_tag_set_item does not release the previous item: that reference passes to the client)"],
+        "stages": [{"driver": "hist", "stage": "dfs", "flavour": "asan", "budget": {"quick": 5, "thorough": 5}, "budget2": {"quick": 4, "thorough": 4}},
+                   {"driver": "hist", "stage": "dfs", "flavour": "asan", "budget": {"thorough": 6}, "budget2": {"thorough": 3}, "tiers": ("thorough",)},
+                   {"driver": "hist", "stage": "random", "flavour": "asan", "budget": {"quick": 100000, "thorough": 2000000}}],
+    },
+    "C12": {
+        "level": "exploration",
+        "assumptions": TRUST,
+        "stages": [{"driver": "hist", "stage": "seq", "flavour": "asan", "budget": {"quick": 5, "thorough": 6}},
+                   {"driver": "hist", "stage": "random", "flavour": "asan", "budget": {"quick": 200000, "thorough": 3000000}},
+                   {"driver": "hist", "stage": "growth", "flavour": "asan"}],
+    },
+    "C13": {
+        "level": "exploration",
+        "assumptions": TRUST + ["cbor_describe is run outside the bypass detector (stdio may allocate for itself) but under provenance checks"],
+        "stages": [{"driver": "hist", "stage": "hist-tagged", "flavour": "asan"}, {"driver": "hist", "stage": "corpus-tagged", "flavour": "asan"},
+                   {"driver": "hist", "stage": "hist-arena", "flavour": "wrap"}, {"driver": "hist", "stage": "corpus-arena", "flavour": "wrap"},
+                   {"driver": "hist", "stage": "hist-tagged-plain", "flavour": "plain-O2"},
+                   {"driver": "hist", "stage": "corpus-count", "flavour": "asan"}],
+    },
 }
